@@ -7,6 +7,7 @@ import copy
 import dataclasses
 import inspect
 import json
+import os
 import random
 import traceback
 from typing import Any
@@ -249,14 +250,16 @@ def run(ctx: Ctx) -> None:
     ctx.rule = ("programs = (source fields, nested source fields, destination fields, nested destination fields, parameter list, recipe of "
                 "<= MaxRecipe link providers over link / link(from_param) / link_constant / link_function with bare-name or class-bound "
                 "predicates), enumerated by TLC from spec/Link.tla with the symbolic plan of every destination field; each built with "
-                "dataclasses + impl_converter and run on tagged values; recipes of length 2 are sampled in the quick tier; non-trivial = "
+                "dataclasses + impl_converter and run on tagged values; recipes of length >= 2 are sampled (8 000 / 400 000 behaviours of tlc -simulate; all recipes of length 2 with VERIF_C13_EXHAUSTIVE2=1); non-trivial = "
                 "programs with a recipe or parameters")
     ctx.assumptions = ["dataclass models (other kinds: C17); int fields with distinct tagged values identify the source of every destination value"]
     cases = enumerate_cases(ctx, 1)
     if quick:
         cases += [c for c in enumerate_cases(ctx, 3, simulate=8000) if len(c["recipe"]) >= 2]
+    elif os.environ.get("VERIF_C13_EXHAUSTIVE2"):
+        cases = enumerate_cases(ctx, 2)          # all recipes of length <= 2: 13.5 million programs, more than an hour on 16 cores
     else:
-        cases = enumerate_cases(ctx, 2)
+        cases += [c for c in enumerate_cases(ctx, 3, simulate=400000) if len(c["recipe"]) >= 2]
     for c in cases:
         if c["recipe"] or c["PS"]:
             ctx.nontrivial.add(stable_hash(c))
@@ -267,7 +270,7 @@ def run(ctx: Ctx) -> None:
     constants_and_defaults(ctx)
     between_kinds(ctx)
     ctx.evaluations += ctx.replayed
-    ctx.exhaustive = not quick
+    ctx.exhaustive = bool(os.environ.get("VERIF_C13_EXHAUSTIVE2")) and not quick
 
 
 HOSTILE_NAME_TABLES = [
